@@ -160,22 +160,35 @@ def classes():
                 px = None if is_mkt else float(max(m.tick_size, m.get_market_price() + rng.randint(-6, 6) * m.tick_size))
                 if px is not None and rng.random() < 0.1:
                     px += m.tick_size / 2
+                vol = rng.randint(1, 5)
+                g = rng.random()
+                if px is not None and g < 0.12 and c.bands.get(mid):
+                    # around the edges of a configured price band: p0 (1 +- r) and p0 / (1 -+ r), a few ticks either side
+                    p0 = m.get_market_price(0)
+                    r_ = rng.choice(c.bands[mid])
+                    edge = rng.choice([p0 * (1 + r_), p0 * (1 - r_), p0 / (1 - r_), p0 / (1 + r_)])
+                    px = float(max(m.tick_size, round(edge / m.tick_size) * m.tick_size + rng.randint(-3, 3) * m.tick_size))
+                elif px is not None and g < 0.2:
+                    # an aggressive order that sweeps several levels
+                    px = float(max(m.tick_size, m.get_market_price() + rng.choice([-1, 1]) * rng.randint(8, 24) * m.tick_size))
+                    vol = rng.randint(6, 20)
                 aid = self.agent_id
                 o = Order(agent_id=aid, market_id=mid, is_buy=rng.random() < 0.5, kind=MARKETK if is_mkt else LIMIT,
-                          volume=rng.randint(1, 5), price=px, ttl=rng.choice([None, None, 1, 2, 3, 5]))
+                          volume=vol, price=px, ttl=rng.choice([None, None, 1, 2, 3, 5]))
                 tag = len(c.objs)
                 c.objs.append(o)
                 mine.append(tag)
                 out.append(o)
                 snap.append(("new", tag, aid, mid, bool(o.is_buy), px, o.volume, o.ttl))
             # malformed stream (each aborts the run): spoofed owner, re-submission, cancel of a never-submitted order
-            if c.malformed and not c.malformed_done and c.sim.markets[0].get_time() >= c.malformed_at:
+            if c.malformed and not c.malformed_done and c.sim.markets[0].get_time() >= c.malformed_at and \
+                    (c.malformed_who is None or c.malformed_who == isinstance(self, HighFrequencyAgent)):
                 kind = c.malformed
                 if kind == "spoof" and len(c.sim.agents) > 1:
                     other = [a.agent_id for a in c.sim.agents if a.agent_id != self.agent_id][0]
                     mid = mids[0]
                     m = c.sim.id2market[mid]
-                    if rng.random() < 0.5 or not out:
+                    if c.spoof_mixed or rng.random() < 0.5 or not out:
                         o0 = Order(agent_id=self.agent_id, market_id=mid, is_buy=True, kind=LIMIT, volume=1,
                                    price=float(m.get_market_price()), ttl=None)
                         c.objs.append(o0)
@@ -340,6 +353,9 @@ def run_case(case):
     c.aseed, c.pmkt = case["aseed"], case.get("pmkt", 0.1)
     c.batch_sizes = case.get("batch_sizes", [0, 1, 1, 2, 3])
     c.malformed, c.malformed_done, c.malformed_at = case.get("malformed"), False, case.get("malformed_at", 0)
+    c.malformed_who = case.get("malformed_who")
+    c.spoof_mixed = case.get("spoof_mixed", False)
+    c.bands = {}
     prng = RecordingRandom(case["seed"])
     lg = K["Rec"]()
     res = {"error": None, "setup_error": None}
@@ -364,6 +380,11 @@ def run_case(case):
     sim.fundamentals.get_fundamental_price = lambda market_id, time: wrapped(market_id, time)
     for m in sim.markets:
         _instrument(m, c)
+    for name, e in case["cfg"].items():
+        if isinstance(e, dict) and e.get("class") == "PriceLimitRule":
+            for tn in e["targetMarkets"]:
+                if tn in sim.name2market:
+                    c.bands.setdefault(sim.name2market[tn].market_id, []).append(e["triggerChangeRate"])
     res["init"] = [[a.agent_id, isinstance(a, K["HAgent"]), fr(a.cash_amount), [[k, a.asset_volumes[k]] for k in sorted(a.asset_volumes)]]
                    for a in sim.agents]
     res["markets"] = [[m.market_id, fr(m.tick_size), fr(m._market_prices[0]),
@@ -392,6 +413,21 @@ def run_case(case):
 # --------------------------------------------------------------------------------------
 # generator
 # --------------------------------------------------------------------------------------
+def gen_malformed(rng, kind, who):
+    """a case built so that the malformed batch is certainly reached: placement everywhere, high-frequency agents present and
+    consulted after every batch"""
+    for _ in range(50):
+        case = gen_case(rng, long_ok=False)
+        cfg = case["cfg"]
+        cfg["H"]["numAgents"] = max(1, cfg["H"]["numAgents"])
+        cfg["N"]["numAgents"] = max(2, cfg["N"]["numAgents"])
+        for ses in cfg["simulation"]["sessions"]:
+            ses.update(withOrderPlacement=True, highFrequencySubmitRate=1.0, maxHighFrequencyOrders=max(1, ses["maxHighFrequencyOrders"]),
+                       maxNormalOrders=max(1, ses["maxNormalOrders"]))
+        case.update(malformed=kind, malformed_who=who, malformed_at=0, spoof_mixed=(kind == "spoof"), batch_sizes=[1, 1, 2])
+        return case
+
+
 def gen_case(rng, long_ok=True):
     nm = rng.randint(1, 3)
     tick = rng.choice([1.0, 0.5, 0.25])
@@ -425,7 +461,7 @@ def gen_case(rng, long_ok=True):
                 for _ in range(rng.randint(1, 3)):
                     ht = rng.choice(["order", "cancel", "execution", "session", "market"])
                     before = False if ht == "execution" else rng.random() < 0.5
-                    times = None if rng.random() < 0.4 else [rng.randint(0, total + steps + 2) for _ in range(rng.randint(1, 4))]
+                    times = None if rng.random() < 0.4 else [rng.randint(0, total + steps + 2) for _ in range(rng.randint(0, 4))]
                     inst, cls = None, None
                     if ht == "market" and rng.random() < 0.5:
                         inst = rng.randrange(len(mk))
@@ -446,9 +482,18 @@ def gen_case(rng, long_ok=True):
                              "triggerChangeRate": rng.choice([0.03125, 0.0625, 0.125])}
             elif kind == "thr":
                 cfg[name] = {"class": "TradingHaltRule", "targetMarkets": rng.sample(mk[:nm], rng.randint(1, nm)),
-                             "triggerChangeRate": rng.choice([0.015625, 0.03125, 0.0625]), "haltingTimeLength": rng.randint(1, 4)}
+                             "triggerChangeRate": rng.choice([0.0078125, 0.015625, 0.03125, 0.0625]), "haltingTimeLength": rng.randint(1, 4)}
             ses["events"].append(name)
             nev += 1
+        if nm >= 2 and rng.random() < 0.12:
+            # two price limit rules with different targets and rates
+            ms = rng.sample(mk[:nm], 2)
+            for j, (tn, rt) in enumerate(zip(ms, rng.sample([0.03125, 0.0625, 0.125, 0.25], 2))):
+                name = "PL%d_%d" % (s, j)
+                cfg[name] = {"class": "PriceLimitRule", "targetMarkets": [tn], "triggerChangeRate": rt}
+                if j == 1 and rng.random() < 0.3:
+                    cfg[name]["enabled"] = False
+                ses["events"].append(name)
         total += steps
         cfg["simulation"]["sessions"].append(ses)
     # one probe that sees every occasion, registered first
@@ -460,9 +505,10 @@ def gen_case(rng, long_ok=True):
     cfg["simulation"]["sessions"][0]["events"].insert(0, "ALL")
     case = {"cfg": cfg, "seed": rng.randint(0, 2 ** 30), "aseed": rng.randint(0, 2 ** 30), "pmkt": rng.choice([0, 0.1, 0.3]),
             "batch_sizes": rng.choice([[0, 1, 1, 2, 3], [1, 1, 2], [0, 0, 1], [1, 2, 3, 4]]), "malformed": None}
-    if rng.random() < 0.08:
-        case["malformed"] = rng.choice(["spoof", "resubmit", "cancel_unsubmitted"])
+    if rng.random() < 0.12:
+        case["malformed"] = rng.choice(["spoof", "spoof", "resubmit", "cancel_unsubmitted"])
         case["malformed_at"] = rng.randint(0, max(0, total - 1))
+        case["malformed_who"] = rng.choice([None, True, False])     # anybody / a high-frequency agent / a normal agent
     return case
 
 
@@ -577,6 +623,10 @@ class SuiteS(engine.Suite):
                 for f in sorted(os.listdir(cdir)):
                     if f.endswith(".json"):
                         cases.append(json.load(open(os.path.join(cdir, f))))
+        if tier != "search":
+            for kind in ("spoof", "resubmit", "cancel_unsubmitted"):
+                for who in (True, False):
+                    cases.append(gen_malformed(rng, kind, who))
         for i in range(n):
             cases.append(gen_case(rng, long_ok=(tier != "quick" or i % 10 == 0)))
         return cases
